@@ -197,7 +197,7 @@ def execute(case: dict) -> dict:
             elif kind in ("readchunk", "iter_chunks"):
                 if not chunked and flag:
                     raise _viol("chunk-flag-nonchunked", f"{op} -> end_of_chunk=True without chunked encoding")
-                inside = [b for b in m.bounds if c0 < b < c1]
+                inside = [b for b in m.bounds if c0 < b < c1 and b not in m.dontcare]
                 if inside:
                     raise _viol("chunk-boundary-crossed", f"{op} returned {data!r} from {c0} crossing sender chunk end(s) {inside}")
                 if flag:
@@ -322,6 +322,24 @@ def execute(case: dict) -> dict:
                 s.set_exception(MyExc("boom"))
                 m.exc = True
                 settle()
+            elif kind == "end_exc":
+                # the end of an HTTP chunk and a payload error in the same loop iteration (what the parser does when the
+                # last chunk of a corrupt compressed body arrives): the chunk end wakes a waiting reader without data
+                if m.exc or m.eof:
+                    continue
+                if chunked:
+                    if not m.in_chunk:
+                        s.begin_http_chunk_receiving()
+                    s.end_http_chunk_receiving()
+                    m.in_chunk = False
+                    m.ends[len(m.fed)] = m.ends.get(len(m.fed), 0) + 1
+                    if len(m.fed) > (m.bounds[-1] if m.bounds else 0):
+                        m.bounds.append(len(m.fed))
+                s.set_exception(MyExc("boom"))
+                m.exc = True
+                settle()
+                if pending is not None:
+                    raise _viol("lost-wakeup/exception-after-chunk-end", f"{pending[0]} still blocked although the stream has an exception set")
             elif kind == "unread":
                 if pending is not None or m.exc:
                     continue
@@ -335,6 +353,9 @@ def execute(case: dict) -> dict:
                 last_ret = last_ret[: len(last_ret) - k]
                 # boundaries at/after the new cursor may legitimately be reported again
                 m.dontcare |= {b for b in m.reported if b >= m.cursor}
+                # ... and chunk ends inside the pushed-back bytes are gone for good: the stream forgot them when a read
+                # went past them, and unread_data() (deprecated) re-queues plain bytes
+                m.dontcare |= {b for b in m.bounds if m.cursor <= b <= m.cursor + k}
                 stats["partial"] = True
             elif kind in CONSUMER:
                 if pending is not None:
@@ -461,7 +482,7 @@ def cases(draw):
         st.tuples(st.just("iter_chunked"), st.integers(1, 6)),
         st.sampled_from([("iter_any",), ("iter_line",), ("iter_chunks",)]),
         st.tuples(st.just("unread"), st.integers(1, 4)),
-        st.sampled_from([("eof",), ("readall",), ("exc",), ("read", 0)]),
+        st.sampled_from([("eof",), ("readall",), ("exc",), ("end_exc",), ("read", 0)]),
     )
     ops = draw(st.lists(op, min_size=1, max_size=40))
     return {"limit": limit, "chunked": chunked, "ops": ops}
